@@ -88,7 +88,56 @@ func scriptFor(h *hist, f fault) func(packets [][]byte) []action {
 	}
 }
 
-var faultKinds = []string{"close", "rst", "short", "badseq", "err", "eof", "cancel", "handler", "mapper-err", "mapper-more", "mapper-less", "unsupported", "invalid"}
+var faultKinds = []string{"close", "rst", "short", "badseq", "err", "eof", "cancel", "handler", "mapper-err", "mapper-more", "mapper-less", "unsupported", "invalid", "badcell"}
+
+// addBadCell appends to the history a table with an ENUM column of pack size 3..8 (its length is computable, so
+// Rows() splits the event, but CellBytes rejects the value: a value-level decode failure) and inserts, at a random
+// place, a transaction whose rows event holds such a value in the before image only / the after image only / both
+// (UPDATE), or in its single image (WRITE, DELETE). Returns the variant for the evidence.
+func addBadCell(r *RNG, h *hist) string {
+	w := r.Range(3, 8)
+	t := &hTable{id: 9001, db: "dbbad", name: "tbad", cols: []hCol{
+		{typ: 3, name: "id"}, {typ: 254, md: 247<<8 | w, nullable: true, name: "e"}, {typ: 15, md: 20, nullable: true, name: "s"}}}
+	h.tables = append(h.tables, t)
+	ti := len(h.tables) - 1
+	bad := fmt.Sprintf("en:%d:%d", w, r.Intn(1<<24))
+	img := func(badHere bool) []string {
+		v := []string{fmt.Sprintf("i:4:%d", r.Intn(1000)), "N", "s:" + hx(r.Bytes(r.Intn(6)))}
+		if badHere {
+			v[1] = bad
+		}
+		return v
+	}
+	variant := r.Pickstr("u-before", "u-before", "u-after", "u-both", "w", "d")
+	ts := uint32(1600002000)
+	c := &hRows{kind: variant[:1], table: ti, ts: ts, announce: true, pb: []bool{true, true, true}, pa: []bool{true, true, true}}
+	nr := r.Range(1, 3)
+	badRow := r.Intn(nr)
+	for i := 0; i < nr; i++ {
+		var row [2][]string
+		isBad := i == badRow
+		switch variant {
+		case "u-before":
+			row[0], row[1] = img(isBad), img(false)
+		case "u-after":
+			row[0], row[1] = img(false), img(isBad)
+		case "u-both":
+			row[0], row[1] = img(isBad), img(isBad)
+		case "w":
+			row[1] = img(isBad)
+		case "d":
+			row[0] = img(isBad)
+		}
+		c.rows = append(c.rows, row)
+	}
+	u := hUnit{kind: "tx", ts: ts, begin: "BEGIN", closer: fmt.Sprintf("x%d", r.Intn(1000)), changes: []hChange{{rows: c}}}
+	if r.Chance(1, 3) {
+		u = hUnit{kind: "ar", rows: c}
+	}
+	at := r.Intn(len(h.units) + 1)
+	h.units = append(h.units[:at], append([]hUnit{u}, h.units[at:]...)...)
+	return variant
+}
 
 func randFault(r *RNG, h *hist, kind string, npk, ntx int) (fault, attemptOpts) {
 	f := fault{kind: kind, at: r.Intn(npk + 1), pace: r.Pickstr("ahead", "lockstep")}
@@ -345,9 +394,9 @@ func extraC05(col *Collector, r *RNG, tier string) {
 }
 
 func extraC06(col *Collector, r *RNG, tier string) {
-	n := 90
+	n := 140
 	if tier == "thorough" {
-		n = 1800
+		n = 2800
 	}
 	m := sharedMaster()
 	for i := 0; i < n; i++ {
@@ -360,6 +409,15 @@ func extraC06(col *Collector, r *RNG, tier string) {
 		npk := len(splitPackets(f0["packets"]))
 		ntx := len(strings.Split(f0["spec"], "&"))
 		kind := faultKinds[i%len(faultKinds)]
+		variant := ""
+		if kind == "badcell" {
+			variant = addBadCell(r, h)
+			if ans, err = theDriver.Ask(h.line(posStr(firstFile, 4))); err != nil {
+				continue
+			}
+			f0 = fields(ans)
+			npk = len(splitPackets(f0["packets"]))
+		}
 		f, opts := randFault(r, h, kind, npk, ntx)
 		late := kind == "err" && i%2 == 0 || causeIsTransport(kind) && i%3 == 0
 		opts.cancelLate = late
@@ -398,6 +456,11 @@ func extraC06(col *Collector, r *RNG, tier string) {
 			}
 			if reached && !strings.HasPrefix(res.streamRet, "err:") {
 				fail("stream-error-swallowed", "Stream returned "+clip(res.streamRet, 60)+" although the attempt hit a "+kind+" failure")
+			}
+		case "badcell":
+			desc += "/" + variant
+			if !strings.HasPrefix(res.streamRet, "err:") {
+				fail("stream-error-swallowed", "Stream returned "+clip(res.streamRet, 60)+" although a rows event ("+variant+") held a value CellBytes rejects (ENUM of an unexpected pack size)")
 			}
 		case "err":
 			if f.at <= npk && res.streamRet == "nil" {
